@@ -228,6 +228,15 @@ func runRouterScenario(run *core.Run, seed int64, stallScenario bool) (tv.Trace,
 					if !c.offer(&mocrelay.ClientEventMsg{Event: conc.Event(e, "live")}, a) {
 						return
 					}
+					if c.id > 2 && !stallScenario && rr.Intn(5) == 0 {
+						// hit and run: the publisher goes away as soon as the router has taken the EVENT
+						c.rec.log("end", c.id, rmsg("END"))
+						c.mu.Lock()
+						c.ended = true
+						c.mu.Unlock()
+						c.cancel()
+						return
+					}
 					// a publisher is never delayed by other connections: OK within 3 s
 					if !c.wait(func() bool { return c.oks[e.ID] >= 1 }, 2*time.Second) {
 						setProblem(fmt.Sprintf("publisher %d: EVENT %s not acknowledged within 2s (stall scenario: %v)", c.id, e.ID, stallScenario))
